@@ -114,6 +114,9 @@ func (q *PathQuery) nilAfter(n ast.Node, st int) int {
 				st = nilSet(st, k, nilNo)
 			case idx(identObj(info, t.Rhs[i])) >= 0:
 				st = nilSet(st, k, nilGet(before, idx(identObj(info, t.Rhs[i]))))
+			case nilPreservingWrap(q.P, info, t.Rhs[i]) != nil && idx(identObj(info, nilPreservingWrap(q.P, info, t.Rhs[i]))) >= 0:
+				// x = wrap(y): nil exactly when y is
+				st = nilSet(st, k, nilGet(before, idx(identObj(info, nilPreservingWrap(q.P, info, t.Rhs[i])))))
 			default:
 				st = nilSet(st, k, nilUnknown)
 			}
@@ -560,4 +563,61 @@ func guardedFailure(fn *FuncInfo, sig *types.Signature, ret *ast.ReturnStmt) boo
 		}
 	}
 	return false
+}
+
+// nilPreservingWrap: x is a call f(y) of a module function with one error parameter and one error result
+// that returns nil only for a nil argument (every `return nil` stands under `if <param> == nil`, every
+// other return is the parameter itself or a non-nil producer). Returns y, or nil.
+func nilPreservingWrap(p *Prog, info *types.Info, x ast.Expr) ast.Expr {
+	call, ok := ast.Unparen(x).(*ast.CallExpr)
+	if !ok || len(call.Args) != 1 {
+		return nil
+	}
+	fi := p.FuncOf(Callee(info, call))
+	if fi == nil || fi.Decl.Body == nil {
+		return nil
+	}
+	sig := fi.Obj.Type().(*types.Signature)
+	if sig.Params().Len() != 1 || sig.Results().Len() != 1 || sig.Params().At(0).Type().String() != "error" || sig.Results().At(0).Type().String() != "error" {
+		return nil
+	}
+	finfo := fi.Info()
+	var param types.Object
+	if ps := fi.Decl.Type.Params.List; len(ps) == 1 && len(ps[0].Names) == 1 {
+		param = finfo.Defs[ps[0].Names[0]]
+	}
+	if param == nil {
+		return nil
+	}
+	ok = true
+	for _, r := range declReturns(fi.Decl.Body) {
+		if len(r.Results) != 1 {
+			return nil
+		}
+		res := ast.Unparen(r.Results[0])
+		switch {
+		case finfo.Types[res].IsNil():
+			under := false
+			for _, anc := range pathTo(fi.Decl.Body, r) {
+				if is, isIf := anc.(*ast.IfStmt); isIf && r.Pos() >= is.Body.Pos() && r.End() <= is.Body.End() {
+					if be, isB := ast.Unparen(is.Cond).(*ast.BinaryExpr); isB && be.Op == token.EQL {
+						if (identObj(finfo, be.X) == param && finfo.Types[ast.Unparen(be.Y)].IsNil()) || (identObj(finfo, be.Y) == param && finfo.Types[ast.Unparen(be.X)].IsNil()) {
+							under = true
+						}
+					}
+				}
+			}
+			if !under {
+				ok = false
+			}
+		case identObj(finfo, res) == param:
+		case nonNilProducer(finfo, res):
+		default:
+			ok = false
+		}
+	}
+	if !ok {
+		return nil
+	}
+	return call.Args[0]
 }
